@@ -201,6 +201,16 @@ def check_route(cx, chk):
             if v in names or v == "parse_":
                 n += 1
                 okflow = False
+                # on the semantic summary: every event that carries this name hands it to the skip helper as the parser name
+                if v in names and "{closure" not in p:
+                    try:
+                        from .. import sem as _sem
+                        sm_, sels = templates.matcher_selections(cx, cg, p)
+                        mine = [(nm_, ev_) for (lf_, nm_, vals_, ev_) in sels if nm_ == v]
+                        if mine and all(last(ev_[0][1]) == "generate_skip_ws" and len(ev_[0][2]) >= 2 and ev_[0][2][1] == ("const", "str", v) for (nm_, ev_) in mine):
+                            okflow = True
+                    except Exception:
+                        pass
                 for j, t in b.calls():
                     if last(t["func"]["path"]) == "generate_skip_ws" and len(t["args"]) >= 2:
                         a = norm(b.expr_op(t["args"][1]))
